@@ -121,7 +121,7 @@ def faults(rng):
 ANYWHERE = sorted(faults(__import__("random").Random(0)).keys())
 STATEFUL = ["dir:sealed-twice", "dir:extent-after-sealed", "dir:extent-none", "dir:extent-bool", "dir:extent-fraction", "dir:union-late", "dir:union-twice",
             "dir:deprecated-late", "dir:deprecated-twice", "dir:deprecated-response", "attr:after-extent", "marker:twice", "commit:union-offset",
-            "final:no-mode", "final:union-arity", "syntax"]
+            "final:no-mode", "final:union-arity", "syntax", "syntax:deep"]
 SYNTAX = ["uint8", "uint8 a b", "@", "= 5", "uint8 a = ", "@print abc def", " uint8 x", "uint8 a; uint8 b", "uint8[ a", "@assert (1", "---x", "void", "@print 1 2"]
 
 
@@ -180,6 +180,14 @@ def print_stmt(rng, uid):
     if r < 0.8:
         return dirv("print", None, shown="")        # a bare @print: delivered once with the empty text
     return dirv("print", ["i", uid], T(str(uid - 1), "+", "1"), shown=str(uid))
+
+
+def deep_statement(rng):
+    """a statement nested far too deeply for the recursive-descent PEG engine (RecursionError inside the grammar parse)"""
+    n = rng.choice([120, 300, 1000])
+    o, c, core = rng.choice([("(", ")", "1"), ("{", "}", "1"), ("(", ")", "true"), ("-(", ")", "2")])
+    e = o * n + core + c * n
+    return rng.choice(["@assert %s == 1", "@print %s", "uint8[%s] deep", "uint8 DEEP = %s", "@extent %s"]) % e
 
 
 def is_attr(s):
@@ -314,8 +322,8 @@ def build_file(rng, fid, rel, target, refs, fault, uid, tier, referenced=False, 
             sts2.insert(rng.randrange(0, len(sts2) + 1), planted)
         lines.append({"s": dict(MARKER), "b": False, "c": c03.gen_comment(rng) if rng.random() < 0.3 else None})
         c03.weave(rng, sts2, lines)
-    if fault == "syntax":
-        planted = {"toks": [[rng.choice(SYNTAX), "o"]], "pre": [], "act": {"k": "syntax"}, "extra": 0, "raw": True}
+    if fault in ("syntax", "syntax:deep"):
+        planted = {"toks": [[rng.choice(SYNTAX) if fault == "syntax" else deep_statement(rng), "o"]], "pre": [], "act": {"k": "syntax"}, "extra": 0, "raw": True}
         lines.insert(rng.randrange(0, len(lines) + 1), {"s": planted, "b": False, "c": None})
     if not lines:
         lines.append({"s": None, "b": False, "c": None})
@@ -331,13 +339,16 @@ def build_file(rng, fid, rel, target, refs, fault, uid, tier, referenced=False, 
         assert f["fault_line"] is not None
     if fault == "syntax":
         f["syntax"] = f["fault_line"]
+    if fault == "syntax:deep":
+        # the PEG engine exhausts the interpreter stack before anything is visited: an error with the path and NO line
+        f["syntax"], f["deep_line"], f["fault_line"] = "deep", f["fault_line"], None
     return f
 
 
 def gen_case(rng, tier, category=None, depth=None, where=None):
     depth = rng.choice([0, 0, 1, 1, 2, 3]) if depth is None else depth
     if category is None:
-        category = rng.choice(["print"] * 14 + ANYWHERE + STATEFUL + ["syntax"] * 3)
+        category = rng.choice(["print"] * 14 + ANYWHERE + STATEFUL + ["syntax"] * 3 + ["syntax:deep"] * 2)
     where = rng.randrange(0, depth + 1) if where is None else where        # which file of the chain holds the fault
     # names: the main target is ns/M; dependencies sort before (A..), after (Z.. / sub/..) or live in the lookup-only root lk
     files = []
@@ -432,6 +443,15 @@ def targeted():
     out.append(mk([("ns/M.1.0.dsdl", True, [L(c=" h"), L(bare()), L(sealed), L(dict(MARKER)), L(), L(bare()), L(sealed)], None)]))
     out.append(mk([("ns/M.1.0.dsdl", True, [L(ref_field("lk.L1.1.0", 2, "z")), L(bare()), L(sealed)], None),
                    ("lk/L1.1.0.dsdl", False, [L(field("a")), L(), L(bare()), L(sealed)], None)]))
+    # seeded C17-r3-3: a statement nested too deeply for the PEG engine, NOT on the first line: path, no line
+    deep = lambda: {"toks": [["@assert " + "(" * 300 + "1" + ")" * 300 + " == 1", "o"]], "pre": [], "act": {"k": "syntax"}, "extra": 0, "raw": True}
+    c = mk([("ns/M.1.0.dsdl", True, [L(field("a")), L(), L(c=" x"), L(deep()), L(sealed)], None)], "syntax:deep", 1, 0, 0)
+    c["files"][0]["syntax"] = "deep"
+    out.append(c)
+    c = mk([("ns/M.1.0.dsdl", True, [L(p222), L(ref_field("Z.1.0", 2, "z")), L(sealed)], None),
+            ("ns/Z.1.0.dsdl", True, [L(field("a")), L(field("b")), L(deep()), L(sealed)], None)], "syntax:deep", 2, 1, 1)
+    c["files"][1]["syntax"] = "deep"
+    out.append(c)
     for cat in ANYWHERE + STATEFUL:
         for depth, where in ((0, 0), (2, 2), (2, 1)):
             out.append(gen_case(rng, "quick", cat, depth, where))
@@ -518,7 +538,7 @@ def simulate(case):
         f = files[i]
         lk = lk - {i}
         fl = f["fault_line"]
-        if f.get("fault") == "syntax":
+        if f.get("fault") in ("syntax", "syntax:deep"):
             raise _Fault([f["rel"], fl])
         for kind, line, payload in events(f):
             if fl is not None and line >= fl and not (kind == "dep" and payload not in lk and line == fl):
@@ -683,7 +703,7 @@ def known_finding(case, obs, known):
 
 def emit_file(f):
     lines = G.lst([c03.emit_line(ln, lambda _t: "tt", lambda _v: "tt") for ln in f["lines"] if not (ln["s"] is not None and ln["s"].get("raw"))])
-    return "(File %s %s %s %s)" % (G.z(f["id"]), G.codepoints(f["rel"]), G.opt(None if f["syntax"] is None else G.z(f["syntax"])), lines)
+    return "(File %s %s %s %s)" % (G.z(f["id"]), G.codepoints(f["rel"]), "None" if f["syntax"] is None else "(Some None)" if f["syntax"] == "deep" else "(Some (Some %s))" % G.z(f["syntax"]), lines)
 
 
 def emit(case, obs):
@@ -750,6 +770,11 @@ def shrink(case):
                     n += 1 + (ln2["s"]["extra"] if ln2["s"] else 0)
                 if n == f["fault_line"]:
                     keep = True
+            if f.get("syntax") == "deep":
+                # the too-deep statement must not become the first line (there a claimed line 1 would happen to be right)
+                raw = next(j for j, x in enumerate(f["lines"]) if x["s"] is not None and x["s"].get("raw"))
+                if raw == 1 and i == 0:
+                    keep = True
             if keep:
                 continue
             g = dict(f)
@@ -760,7 +785,7 @@ def shrink(case):
                     n += 1 + (ln2["s"]["extra"] if ln2["s"] else 0)
                 if n < f["fault_line"]:
                     g["fault_line"] = f["fault_line"] - 1 - (s["extra"] if s else 0)
-                    if g["syntax"] is not None:
+                    if g["syntax"] is not None and g["syntax"] != "deep":
                         g["syntax"] = g["fault_line"]
             if not g["lines"]:
                 continue
